@@ -116,6 +116,12 @@ add("C09", "vp_graph (+ libFuzzer target graph in the thorough tier)",
     "Trusted: petgraph 0.5.1 as resolved by the repository's lock file; the harness edge list and reachability model. Input order is unspecified and not asserted.",
     "DESIGN.md §4 C09")
 
+add("C16", "vp_graph",
+    "proptest + catalogue (kind x wrapper x channel layout) against per-node reference functions inside a real graph",
+    "Sum, SumBuffers, Pass, Delay, signal node and nested GraphNode, each through bare / &mut / Box / BoxedNode / BoxedNodeSend / Box<dyn FnMut> / Box<dyn Fn> / fn-pointer forms, with 0..6 inputs of 0..4 buffers, 0..4 output buffers (mismatched on purpose), 1..6 consecutive process calls with fresh contents from constant-writer source nodes, Delay rings of 1..200 samples per channel (shorter than, equal to and longer than a buffer), signal frames of 1..4 channels: Sum per channel over the inputs that have it, SumBuffers over all buffers, Pass copies and leaves surplus outputs (sentinel pattern) untouched, Delay == per-channel FIFO carried across calls, signal node de-interleaves one buffer length of frames per call, GraphNode == processing the same inner graph directly, every wrapper bit-identical to the bare node.",
+    "Trusted: the reference functions; exact comparison on grid contents, n eps sum|x| otherwise. dasp_graph is built against the crates.io 0.11.0 dasp_* crates exactly as the repository resolves them.",
+    "DESIGN.md §4 C16")
+
 PENDING_REASON = "check not yet built in this round (design in DESIGN.md §4); nothing is claimed for it until its check is registered"
 
 def main():
